@@ -331,18 +331,77 @@ def rule_e5(F):
         if "error_field_mismatch" not in callees:
             r.bad(b.path, "error_field_mismatch", relfile(b.file), b.line, "record_fields no longer rejects missing / duplicate / unknown fields")
         else:
-            # all three sets are tested
-            for iff in hir.nodes(b.hir["value"], "if"):
-                # the test that leads to error_field_mismatch looks at three distinct collections (invalid / duplicate / missing) ...
-                errs = [c for c in hir.nodes(iff["then"], "mcall") if c["m"] == "error_field_mismatch"]
-                if not errs:
+            # all three sets are tested: the branches that decide whether error_field_mismatch is reached look at the emptiness of three
+            # distinct collections, and those three are what the error is given (decided on MIR: however the condition is spelled)
+            defs_ = mir.Defs(b)
+            dom_ = mir.dominators(b)
+
+            def base_(op):
+                if not mir.is_place_op(op):
+                    return None
+                l = op[1][0]
+                for _ in range(8):
+                    ds = defs_.whole_defs(l)
+                    if len(ds) == 1 and ds[0][2] == "assign" and ds[0][3]["rv"]["k"] in ("ref", "use"):
+                        rv = ds[0][3]["rv"]
+                        src = rv.get("p") or (rv["o"][1] if mir.is_place_op(rv.get("o")) else None)
+                        if not src:
+                            break
+                        l = src[0]
+                    elif len(ds) == 1 and ds[0][2] == "call" and hir.last(mir.callee_def(ds[0][3]) or "") in ("deref", "as_slice", "borrow") and ds[0][3]["args"] and mir.is_place_op(ds[0][3]["args"][0]):
+                        l = ds[0][3]["args"][0][1][0]
+                    else:
+                        break
+                return l
+            ok_sets = False
+            for cbi, ct in mir.calls(b):
+                if hir.last(mir.callee(ct) or "") != "error_field_mismatch":
                     continue
-                tested = {hir.res_local(hir.peel_refs(hir.strip(c["recv"]))) for c in hir.nodes(iff["cond"], "mcall") if c["m"] in ("is_empty", "len")} - {None}
-                # ... and hands the same three to the error
-                passed = {hir.res_local(n) for a in errs[0]["args"] for n in hir.walk(a) if n.get("k") == "path" and hir.res_local(n) is not None}
-                if len(tested) >= 3 and tested <= passed:
-                    break
-            else:
+                passed = {base_(a) for a in ct["args"][1:]} - {None}
+                tested = set()
+                for si, sblk in enumerate(b.blocks):
+                    tt = sblk["term"]
+                    if tt["k"] != "switch":
+                        continue
+                    # the switch matters for the error if one of its edges leads to the error on every path and another one does not
+                    def must_(x):
+                        if x == cbi:
+                            return True
+                        rs = mir.reachable_from(b, x, stop={cbi}) - {cbi}
+                        return cbi in mir.reachable_from(b, x) and not any(b.blocks[y]["term"]["k"] == "return" for y in rs)
+                    must = [must_(x) for x in mir.succs(sblk)]
+                    if all(must) or not any(must):
+                        continue
+                    l = mir.op_local(tt["o"])
+                    if l is None:
+                        continue
+                    for eb in mir.back_calls(b, defs_, l):
+                        et = b.blocks[eb]["term"]
+                        if hir.last(mir.callee_def(et) or "") in ("is_empty", "len") and et["args"]:
+                            tested.add(base_(et["args"][0]))
+                if len(tested & passed) >= 3:
+                    ok_sets = True
+                if not ok_sets:
+                    # the condition may be folded into a flag (`let all_match = a.is_empty() && ..; if !all_match`): evaluate all
+                    # eight combinations of the three emptiness tests path-sensitively - the error is reached iff one is non-empty
+                    import itertools
+                    atoms = [eb for eb, et in mir.calls(b) if hir.last(mir.callee_def(et) or "") == "is_empty" and et["args"] and base_(et["args"][0]) in passed]
+                    by_coll = {}
+                    for eb in atoms:
+                        by_coll.setdefault(base_(b.blocks[eb]["term"]["args"][0]), []).append(eb)
+                    if len(by_coll) >= 3:
+                        colls = sorted(by_coll)[:3] if len(by_coll) == 3 else sorted(by_coll)
+                        good = True
+                        for combo in itertools.product([True, False], repeat=len(colls)):
+                            av = {}
+                            for cl, v in zip(colls, combo):
+                                for eb in by_coll[cl]:
+                                    av[("call", eb)] = v
+                            reached = mir.bool_sim(b, av)
+                            if (cbi in reached) != (not all(combo)):
+                                good = False
+                        ok_sets = good
+            if not ok_sets:
                 r.bad(b.path, "field sets", relfile(b.file), b.line, "record_fields does not test all of invalid / duplicate / missing fields")
     # Negate: rejects unsigned, marks MustBeSigned::Yes
     eb = find_tc(F, "expr")
